@@ -2084,6 +2084,21 @@ def _std(self, fn, st, b, t, cn, last, args, dargs, targ, summ, chain, tctrl):
             else:
                 variants = {0: {"k": "agg", "f": {}, "t": False}, 1: payload(top(targ))}
             return enum_val(variants, targ)
+        if last == "checked_next_power_of_two" and ints(0) and dargs[0]["lo"] >= 0:
+            inner = dty.split("Option<", 1)[-1].rstrip(">")
+            rr = ty_range(inner)
+            a = dargs[0]
+            variants = {}
+            if rr:
+                top_p2 = (rr[1] + 1) // 2
+                if a["lo"] <= top_p2:
+                    variants[1] = payload(mk(npot(a["lo"]), npot(min(a["hi"], top_p2)), targ, True))
+                if a["hi"] > top_p2:
+                    variants[0] = {"k": "agg", "f": {}, "t": False}
+                return enum_val(variants, targ)
+        if last == "clamp" and ints(0, 1, 2):
+            a, lo_, hi_ = dargs[0], dargs[1], dargs[2]
+            return mk(min(max(a["lo"], lo_["lo"]), hi_["hi"]), min(max(a["hi"], lo_["lo"]), hi_["hi"]), targ)
         if last in ("from_le_bytes", "from_be_bytes", "from_ne_bytes"):
             return mk(r[0], r[1], targ) if r else top(targ)
         if last in ("wrapping_sub", "wrapping_add", "overflowing_sub", "overflowing_add") and ints(0, 1):
@@ -2127,6 +2142,9 @@ def _std(self, fn, st, b, t, cn, last, args, dargs, targ, summ, chain, tctrl):
                 return const(0)
             return mk(0, 1, taint_of(x))
         return mk(0, 1, targ)
+    if last == "clamp" and (cn.startswith("core::cmp::") or cn.endswith("Ord::clamp")) and ints(0, 1, 2):
+        a, lo_, hi_ = dargs[0], dargs[1], dargs[2]
+        return mk(min(max(a["lo"], lo_["lo"]), hi_["hi"]), min(max(a["hi"], lo_["lo"]), hi_["hi"]), targ)
     if (cn.startswith("core::cmp::") and last in ("min", "max") and ints(0, 1)) or (cn.endswith(("Ord::min", "Ord::max")) and ints(0, 1)):
         a, c = dargs[0], dargs[1]
         tag = None
